@@ -472,4 +472,6 @@ RULES = [
     ("C04.R5", "header: removals confined, everything else adds", r5),
     ("C04.R6", "GT changes are reported and imply --distrust-genotypes", r6),
 ]
-FLOORS = {"C04.R1": 25, "C04.R2": 9, "C04.R3": 2, "C04.R4": 11, "C04.R5": 6, "C04.R6": 6}
+# instance floors: about 60% of the instances confirmed by hand on the reference tree -- a rule that suddenly matches far fewer
+# sites fails the run (exit 2); a clean-up that merges two sites into one does not
+FLOORS = {"C04.R1": 15, "C04.R2": 5, "C04.R3": 1, "C04.R4": 6, "C04.R5": 3, "C04.R6": 3}
